@@ -195,6 +195,38 @@ pub proof fn c08_rot_run(ms: Seq<ConsumerGroupMember>, rs: Seq<Option<u32>>, i0:
     }
 }
 
+// arithmetic of the rotation: within l consecutive polls starting at poll s, position j is reached ...
+pub proof fn lemma_rot_pos_hit(b: int, s: int, l: int, j: int) -> (t: int)
+    requires 0 <= b, 0 <= s, 0 < l, 0 <= j < l,
+    ensures s <= t < s + l, rot_pos(b, t, l) == j,
+{
+    let a = (b + s) % l;
+    vstd::arithmetic::div_mod::lemma_mod_pos_bound(b + s, l);
+    let d = if j >= a { j - a } else { j + l - a };
+    let t = s + d;
+    vstd::arithmetic::div_mod::lemma_small_mod(d as nat, l as nat);
+    vstd::arithmetic::div_mod::lemma_add_mod_noop(b + s, d, l);
+    assert(b + s + d == b + t);
+    vstd::arithmetic::div_mod::lemma_small_mod(j as nat, l as nat);
+    if j < a {
+        vstd::arithmetic::div_mod::lemma_mod_multiples_vanish(1, j, l);
+        assert(l * 1 + j == j + l);
+    }
+    t
+}
+// ... and no position is reached twice
+pub proof fn lemma_rot_pos_inj(b: int, t1: int, t2: int, l: int)
+    requires 0 <= b, 0 <= t1 < t2, t2 < t1 + l, 0 < l,
+    ensures rot_pos(b, t1, l) != rot_pos(b, t2, l),
+{
+    if rot_pos(b, t1, l) == rot_pos(b, t2, l) {
+        vstd::arithmetic::div_mod::lemma_mod_equivalence(b + t2, b + t1, l);
+        vstd::arithmetic::div_mod::lemma_small_mod((t2 - t1) as nat, l as nat);
+        assert((b + t2) - (b + t1) == t2 - t1);
+        assert(false);
+    }
+}
+
 // `|share|` consecutive polls visit every position of the share exactly once (hence, with [C08.excl], every owned
 // partition exactly once): in any window [s, s+l) of polls the cursor positions are pairwise different and every
 // position j occurs.
@@ -214,36 +246,10 @@ pub proof fn c08_rot_cycle(ms: Seq<ConsumerGroupMember>, rs: Seq<Option<u32>>, i
     assert forall|t: int| s <= t < s + l implies #[trigger] rs[t] == Some(share(ms[0])[rot_pos(b, t, l)]) by {
         c08_rot_run(ms, rs, i0, t + 1);
     }
-    // every position occurs
-    let a = (b + s) % l;
-    vstd::arithmetic::div_mod::lemma_mod_pos_bound(b + s, l);
-    let d = if j >= a { j - a } else { j + l - a };
-    let t = s + d;
-    vstd::arithmetic::div_mod::lemma_small_mod(d as nat, l as nat);
-    vstd::arithmetic::div_mod::lemma_add_mod_noop(b + s, d, l);
-    assert(b + s + d == b + t);
-    if j >= a {
-        vstd::arithmetic::div_mod::lemma_small_mod(j as nat, l as nat);
-    } else {
-        vstd::arithmetic::div_mod::lemma_mod_multiples_vanish(1, j, l);
-        assert(l * 1 + j == j + l);
-        vstd::arithmetic::div_mod::lemma_small_mod(j as nat, l as nat);
-    }
-    assert(rot_pos(b, t, l) == j);
+    let t = lemma_rot_pos_hit(b, s, l, j);
     assert(rs[t] == Some(share(ms[0])[rot_pos(b, t, l)]));
-    // no position occurs twice
     assert forall|t1: int, t2: int| s <= t1 < t2 < s + l implies rot_pos(b, t1, l) != rot_pos(b, t2, l) by {
-        if rot_pos(b, t1, l) == rot_pos(b, t2, l) {
-            let x1 = b + t1;
-            let x2 = b + t2;
-            lemma_divmod(x1, l);
-            lemma_divmod(x2, l);
-            let k = x2 / l - x1 / l;
-            assert(x2 - x1 == k * l) by (nonlinear_arith)
-                requires x1 == (x1 / l) * l + x1 % l, x2 == (x2 / l) * l + x2 % l, x1 % l == x2 % l, k == x2 / l - x1 / l;
-            assert(0 < k * l < l);
-            assert(false) by (nonlinear_arith) requires 0 < k * l < l, l > 0;
-        }
+        lemma_rot_pos_inj(b, t1, t2, l);
     }
 }
 
